@@ -268,6 +268,13 @@ def run_chain(desc, seed):
                 m.compress_config = CompressConfig(CompressCriteria.fixed, max_bonddim=64)
                 return [1] + payload + [1]
         run(f"{style} limits={limits} dir={direction}", cfg, limits, crit="fixed", ret_s=(style != "temp-int"))
+        if style == "max_dims":
+            # the same per-bond table under the criterion that combines it with a threshold (here far below every singular value)
+            def cfgb(m, payload=payload):
+                m.compress_config = CompressConfig(CompressCriteria.both, threshold=1e-14, max_bonddim=64)
+                m.compress_config.max_dims = np.array([1] + payload + [1])
+                return None
+            run(f"max_dims+both limits={limits} dir={direction}", cfgb, limits, crit="both-per-bond", ret_s=True)
     for thr in THRESHOLDS:
         def cfg(m, thr=thr):
             m.compress_config = CompressConfig(CompressCriteria.threshold, threshold=thr)
